@@ -627,7 +627,22 @@ def _dag_spec(which):
     return oracle
 
 
+def _shift_spec(obj, args):
+    N, M, pattern = args
+    if N < 1 or M < 1:
+        return None
+    mod = importlib.import_module("cnfgen.graphs")
+    before = list(pattern)
+    G = mod.bipartite_shift(N, M, pattern)
+    want = sorted({(u, 1 + (u - 1 + o) % M) for u in range(1, N + 1) for o in before})
+    got = sorted(G.edges())
+    if got != want or pattern != before or (G.left_order(), G.right_order()) != (N, M):
+        return {"N": N, "M": M, "pattern": before, "pattern_after": pattern, "edges": got[:10], "expected": want[:10]}
+    return None
+
+
 ORACLES = {
+    "bipartite_shift": _shift_spec,
     "dag_path": _dag_spec("dag_path"),
     "dag_complete_binary_tree": _dag_spec("dag_complete_binary_tree"),
     "dag_pyramid": _dag_spec("dag_pyramid"),
